@@ -543,7 +543,9 @@ func NewPackage(pkgPath string, pkg *ast.Package, conf *Config) (p *gogen.Packag
 		rec = newRecorder(conf.Recorder)
 		confGox.Recorder = rec
 		defer func() {
-			rec.Complete(p.Types.Scope())
+			if p != nil { // nil if gogen.NewPackage itself panicked (this runs after the recover below)
+				rec.Complete(p.Types.Scope())
+			}
 		}()
 	}
 	if enableRecover {
